@@ -35,6 +35,9 @@ def compute_delta(interp, base, st, nframe, pre_oid, node):
             continue
         if isinstance(bo, HList):
             n = len(bo.segs)
+            cs = co.segs
+            if cs and cs[0][0] == "sym" and isinstance(cs[0][1], tuple) and cs[0][1][:1] == ("carried",) and (not bo.segs or bo.segs[0] != cs[0]):
+                co = HList(cs[1:], is_set=co.is_set)  # content of earlier iterations, not an effect of this one
             if co.segs[:n] != bo.segs:
                 if len(co.segs) < n or True:
                     delta.append(("list.rewrite", oid, tuple(co.segs)))
@@ -42,6 +45,10 @@ def compute_delta(interp, base, st, nframe, pre_oid, node):
             if len(co.segs) > n:
                 delta.append(("list", oid, co.segs[n:]))
         elif isinstance(bo, HDict):
+            if co.sym and isinstance(co.sym, tuple) and co.sym[:1] == ("carried",) and co.sym != bo.sym:
+                co = HDict(co.entries, co.each, bo.sym)
+                if hasattr(st.heap[oid], "symkeys"):
+                    co.symkeys = st.heap[oid].symkeys
             changed = {k: v for k, v in co.entries.items() if k not in bo.entries or bo.entries[k] != v}
             removed = [k for k in bo.entries if k not in co.entries]
             neweach = co.each[len(bo.each):]
@@ -85,6 +92,8 @@ def compute_delta(interp, base, st, nframe, pre_oid, node):
         be, ce = base.frames[i].env, st.frames[i].env
         for name, v in ce.items():
             if name not in be or be[name] != v:
+                if isinstance(v, Sym) and isinstance(v.label, tuple) and v.label[:1] == ("carried",) and v.label[-1] == name:
+                    continue  # the havocked loop-carried value itself: not assigned on this body path
                 delta.append(("var", i, name, v))
     return delta
 
